@@ -39,22 +39,26 @@ func parseTagAndLength(bytes []byte) (r tagAndLen, off int, e error) {
 		r.len = int64(bytes[off])
 		off++
 	} else {
-		len := int(bytes[off] & 0x7f)
-		// fmt.Println("len", len)
-		if len > 3 {
+		lenOctets := int(bytes[off] & 0x7f)
+		// fmt.Println("len", lenOctets)
+		if lenOctets > 3 {
 			e = fmt.Errorf("length is too large")
 			return r, off, e
 		}
 		off++
+		if off+lenOctets > len(bytes) {
+			e = fmt.Errorf("length octets out of range")
+			return r, off, e
+		}
 		var val int64
-		val, e = parseInt64(bytes[off : off+len])
+		val, e = parseInt64(bytes[off : off+lenOctets])
 		if e != nil {
 			return r, off, e
 		}
 		// fmt.Println("bytes[off : off+len]", bytes[off : off+len], "val", val)
 
 		r.len = int64(val)
-		off += len
+		off += lenOctets
 	}
 
 	return r, off, e
